@@ -289,7 +289,7 @@ class Builder:
                 e = rs.match_close(m, it.body_open + mm.end() - 1) + 1
                 inner = rs.norm(src[s:e])
                 key = re.split(r"[\s(=:\]]", inner[2:].strip(), 1)[0]
-                if key in ("default",):
+                if key in ("default",) and False:
                     continue
                 self.report["dropped_attrs"][key] = self.report["dropped_attrs"].get(key, 0) + 1
                 edits.append(Edit(s, e, []))
@@ -418,7 +418,7 @@ class Builder:
         # ---- contract clauses before the body
         spec = []
         # receiver-agnostic placeholders: OLD_SELF / FINAL_SELF follow the real signature's receiver
-        ps = m.index("(", a)
+        ps = params_open(m, a, hdr_end)
         recv = rs.norm(m[ps + 1:rs.match_close(m, ps)]).split(",")[0].strip()
         mut_recv = bool(re.match(r"&\s*(?:'\w+\s+)?mut\s+self$", recv))
 
@@ -452,7 +452,7 @@ class Builder:
         if it.body_open is None:
             self.emit_with_edits(rel, src, a, b, edits, fn=qual)
             return
-        ps0 = m.index("(", a)
+        ps0 = params_open(m, a, hdr_end)
         mrecv = re.match(r"\(\s*mut\s+self\b", m[ps0:hdr_end])
         if mrecv:
             edits.append(Edit(ps0, ps0 + mrecv.end(), [Seg("(self", "repo", fn=qual)]))
@@ -581,6 +581,8 @@ class Builder:
                                 segs.append(Seg("                " + cl.text + ",\n", "contract",
                                                 file="contracts.vc", line=cl.line, fn=qual, clause=cid))
                                 fnrec["clauses"].append({"id": cid, "kind": kwd, "tags": cl.tags, "text": cl.text})
+                    # a spliced closure header supersedes generic rewrites of the same parameter list (R3 / R3b)
+                    edits[:] = [e for e in edits if not (e.a >= p0 and e.b <= p1 and e.b > e.a)]
                     edits.append(Edit(p0, p1, segs))
                     self.count("R7.closure")
                     if not is_block:
@@ -741,6 +743,11 @@ class Builder:
                 for mm in re.finditer(r"\.\s*try_into\s*\(", m[a:b]):
                     edits.append(Edit(a + mm.start(), a + mm.end(), [Seg(".vx_try_into_passkey(", "repo", fn=qual)]))
                     self.count("R12b")
+            if rule[0] == "R4c":
+                # slice.try_into() producing an array -> trusted wrapper method (the blanket TryInto impl has no spec)
+                for mm in re.finditer(r"\.\s*try_into\s*\(", m[a:b]):
+                    edits.append(Edit(a + mm.start(), a + mm.end(), [Seg(".vx_try_into_arr(", "repo", fn=qual)]))
+                    self.count("R4c")
             if rule[0] == "R15":
                 # Vec<u8>::extend(Bytes) -> trusted wrapper method (std's version is IntoIterator-generic)
                 for mm in re.finditer(r"\.\s*extend\s*\(", m[a:b]):
@@ -917,11 +924,27 @@ def list_members(src, m, region):
     return res
 
 
+def params_open(m, a, hdr_end=None):
+    """index of the '(' opening the parameter list of the fn item starting at a (skips `pub(crate)` and generics)."""
+    mm = re.search(r"(?<![A-Za-z0-9_])fn\s+[A-Za-z_][A-Za-z0-9_]*", m[a:hdr_end])
+    k = a + (mm.end() if mm else 0)
+    depth = 0
+    while k < len(m):
+        ch = m[k]
+        if ch == "<":
+            depth += 1
+        elif ch == ">" and m[k - 1] != "-":
+            depth -= 1
+        elif ch == "(" and depth == 0:
+            return k
+        k += 1
+    raise rs.ScanError("no parameter list")
+
+
 def find_arrow(m, a, hdr_end):
     """return (type_start, type_end) of the return type in a fn header, or None."""
     # params: first '(' after fn name (skip generics)
-    p = m.index("(", a)
-    # generics may contain parentheses only in Fn bounds; accept the simple case
+    p = params_open(m, a, hdr_end)
     pc = rs.match_close(m, p)
     k = pc + 1
     mm = re.match(r"\s*->\s*", m[k:hdr_end])
@@ -950,7 +973,7 @@ def find_arrow(m, a, hdr_end):
 
 
 def hdr_sig_end(m, a, hdr_end):
-    p = m.index("(", a)
+    p = params_open(m, a, hdr_end)
     return rs.match_close(m, p) + 1
 
 
